@@ -6,6 +6,7 @@ import "verifharness/common"
 var units = map[string]common.UnitFunc{
 	"c01direct": unitC01direct,
 	"c01orch":   unitC01orch,
+	"c10crypto": unitC10crypto,
 	"c20crypto": unitC20crypto,
 	"c13crypto": unitC13crypto,
 	"c05":       unitC05,
